@@ -272,6 +272,10 @@ func init() {
 		}
 		return nil
 	})
+	reg("vf:vfIteLifting", func(ex *Exec, fr *Frame, args []Value, site ssa.Instruction) Value {
+		ex.ts.lift = args[0].(*Term).IsTrue()
+		return nil
+	})
 	reg("vf:vfIsGSE", func(ex *Exec, fr *Frame, args []Value, site ssa.Instruction) Value { return ex.ts.True })
 	reg("vf:vfTier", func(ex *Exec, fr *Frame, args []Value, site ssa.Instruction) Value {
 		return ex.c64(uint64(ex.w.tier))
@@ -1082,7 +1086,11 @@ func (ex *Exec) collectArr(a *ArrObj, seen map[interface{}]bool, cells *[]*Value
 	}
 	seen[a] = true
 	if a.w >= 0 {
-		return // payload bytes are handed over through channels; their ownership is C15
+		// scalar arrays are guarded as whole objects (element accesses report the array)
+		if !a.pool {
+			*objs = append(*objs, a)
+		}
+		return // pooled payload bytes are handed over through channels; their ownership is C15
 	}
 	for i := range a.elems {
 		ex.collectCell(&a.elems[i], seen, cells, objs)
@@ -1324,5 +1332,31 @@ func init() {
 		t.when, t.active = ex.ts.Add(ex.sched.now, args[1].(*Term)), true
 		ex.fireTimers()
 		return ex.ts.Bool(was)
+	})
+}
+
+func init() {
+	// io.ReadFull(crypto/rand.Reader, buf): the system CSPRNG is an arbitrary byte source
+	reg("io.ReadFull", func(ex *Exec, fr *Frame, args []Value, site ssa.Instruction) Value {
+		if iv, ok := args[0].(IfaceV); ok && iv.t != nil {
+			panic(pathEnd{kind: endUnsupported, msg: "io.ReadFull on an interpreted reader"})
+		}
+		s := args[1].(SliceV)
+		n := 0
+		if s.arr != nil {
+			n = int(ex.concretize(s.len, "readfull"))
+			ex.counters["crand"]++
+			for i := 0; i < n; i++ {
+				ex.arrWrite(s.arr, ex.ts.Add(s.off, ex.c64(uint64(i))), ex.ts.Var(fmt.Sprintf("crand#%d_%d", ex.counters["crand"], i), 8))
+			}
+		}
+		return TupleV{ex.c64(uint64(n)), IfaceV{}}
+	})
+	reg("crypto/aes.NewCipher", func(ex *Exec, fr *Frame, args []Value, site ssa.Instruction) Value {
+		f := ex.pkg.Func("vfNewCipherBlock")
+		if f == nil {
+			panic(pathEnd{kind: endUnsupported, msg: "vfNewCipherBlock harness function missing"})
+		}
+		return TupleV{ex.call(fr, f, nil, nil, site), IfaceV{}}
 	})
 }
